@@ -4,7 +4,7 @@ import sys, os, shutil, json, subprocess
 pid, L, pkg, caught, needs = sys.argv[1:6]
 rnd = os.environ.get("SEED_ROUND", "1")
 src = f"/tmp/seed-{pid}/OUT" if rnd == "1" else f"/tmp/seed{rnd}-{pid}/OUT"
-name = L if rnd == "1" else {"A": "C", "B": "D"}[L]
+name = L if rnd == "1" else {"A": "C", "B": "D"}[L] if rnd == "2" else {"A": "E", "B": "F"}[L]
 dst = f"/verif/seeded/{pid}-{name}"
 os.makedirs(dst, exist_ok=True)
 if needs == "-":
